@@ -1641,16 +1641,45 @@ Qed.
 Lemma mle_set_time v m : mle m (set_m_time v m).
 Proof. constructor; cbn; eauto using rfix_refl, cfix_refl. Qed.
 
+(* Cancel: the tracker first notes the hand-back on the popped conn (ci_back only), then marks the request *)
+Definition cpre (m : mst) (x : rinfo) : mst :=
+  match ri_stat x, ri_popx x with
+  | SLive, Some c => match nth_error (m_conns m) c with
+                     | Some y => if ci_share y then m else ci_upd (set_ci_back (m_i m)) c m
+                     | None => m end
+  | _, _ => m end.
+Definition cmark (y : rinfo) : rinfo :=
+  set_ri_pend false (set_ri_stat SCancelled (match ri_stat y, ri_dial y with SLive, DsFlying => set_ri_aband true y | _, _ => y end)).
+Lemma track_cancel_some m r ob x : nth_error (m_reqs m) r = Some x ->
+  track_op cfg m (Cancel r) ob = match ri_stat x with SDone | SCancelled => m | _ => ri_upd cmark r (cpre m x) end.
+Proof. intros H. cbn [track_op]. rewrite H. reflexivity. Qed.
+Lemma track_cancel_none m r ob : nth_error (m_reqs m) r = None -> track_op cfg m (Cancel r) ob = m.
+Proof. intros H. cbn [track_op]. rewrite H. reflexivity. Qed.
+Lemma cpre_reqs m x : m_reqs (cpre m x) = m_reqs m.
+Proof.
+  unfold cpre. destruct (ri_stat x); try reflexivity. destruct (ri_popx x) as [c|]; [|reflexivity].
+  destruct (nth_error (m_conns m) c) as [y|]; [|reflexivity]. destruct (ci_share y); reflexivity.
+Qed.
+Lemma cpre_mle m x : mle m (cpre m x).
+Proof.
+  unfold cpre. destruct (ri_stat x); try apply mle_refl. destruct (ri_popx x) as [c|]; [|apply mle_refl].
+  destruct (nth_error (m_conns m) c) as [y|]; [|apply mle_refl]. destruct (ci_share y); [apply mle_refl|].
+  apply mle_ci_upd. intros z. repeat split.
+Qed.
+Lemma cmark_rfix y : rfix y (cmark y).
+Proof. unfold cmark. destruct (ri_stat y), (ri_dial y); repeat split. Qed.
+
 Lemma mle_track_op m o ob : (forall u p, o <> Issue u p) -> mle m (track_op cfg m o ob).
 Proof.
-  intros Hi. destruct o; cbn [track_op]; try apply mle_refl.
+  intros Hi. destruct o; try (cbn [track_op]; apply mle_refl).
   - exfalso. eapply Hi. reflexivity.
-  - destruct (nth_error (m_reqs m) r) as [x|]; [|apply mle_refl]. destruct (ri_stat x); try apply mle_refl;
-      (apply mle_ri_upd; intros y; destruct (ri_stat y), (ri_dial y); repeat split).
-  - destruct (holder_conn m r); [|apply mle_refl]. apply mle_ci_upd. intros y. repeat split.
-  - apply mle_ri_upd. intros y. destruct (ri_dial y), (ri_resolved y); repeat split.
-  - apply mle_ci_upd. intros y. repeat split.
-  - apply mle_set_time.
+  - destruct (nth_error (m_reqs m) r) as [x|] eqn:Hx; [|rewrite track_cancel_none by exact Hx; apply mle_refl].
+    rewrite (track_cancel_some _ _ _ _ Hx). destruct (ri_stat x); try apply mle_refl;
+      (eapply mle_trans; [apply cpre_mle|apply mle_ri_upd; exact cmark_rfix]).
+  - cbn [track_op]. destruct (holder_conn m r); [|apply mle_refl]. apply mle_ci_upd. intros y. repeat split.
+  - cbn [track_op]. apply mle_ri_upd. intros y. destruct (ri_dial y), (ri_resolved y); repeat split.
+  - cbn [track_op]. apply mle_ci_upd. intros y. repeat split.
+  - cbn [track_op]. apply mle_set_time.
 Qed.
 
 Lemma wcond_cancel y :
@@ -1667,14 +1696,15 @@ Qed.
 
 Lemma Wk_track_op m o ob : (forall u p, o <> Issue u p) -> Wk m (track_op cfg m o ob).
 Proof.
-  intros Hi. destruct o; cbn [track_op]; try apply Wk_refl.
+  intros Hi. destruct o; try (cbn [track_op]; apply Wk_refl).
   - exfalso. eapply Hi. reflexivity.
-  - destruct (nth_error (m_reqs m) r) as [x|]; [|apply Wk_refl]. destruct (ri_stat x); try apply Wk_refl;
-      (apply Wk_ri_upd; intros y; apply wcond_cancel).
-  - destruct (holder_conn m r); [|apply Wk_refl]. apply Wk_same. reflexivity.
-  - apply Wk_ri_upd. intros y. apply wcond_dialdone.
-  - apply Wk_same. reflexivity.
-  - apply Wk_same. reflexivity.
+  - destruct (nth_error (m_reqs m) r) as [x|] eqn:Hx; [|rewrite track_cancel_none by exact Hx; apply Wk_refl].
+    rewrite (track_cancel_some _ _ _ _ Hx). destruct (ri_stat x); try apply Wk_refl;
+      (apply (Wk_trans m (cpre m x)); [apply cpre_mle|apply Wk_same; apply cpre_reqs|apply Wk_ri_upd; intros y; apply wcond_cancel]).
+  - cbn [track_op]. destruct (holder_conn m r); [|apply Wk_refl]. apply Wk_same. reflexivity.
+  - cbn [track_op]. apply Wk_ri_upd. intros y. apply wcond_dialdone.
+  - cbn [track_op]. apply Wk_same. reflexivity.
+  - cbn [track_op]. apply Wk_same. reflexivity.
 Qed.
 
 (* the tracker's move at the start of an operation that is neither Issue nor Cancel keeps R2 *)
@@ -1702,15 +1732,16 @@ Proof. intros H. eapply R2_frame; [| | | | | | | |exact H]; try reflexivity; [in
 
 Lemma cancel_other m r ob r' : r' <> r -> nth_error (m_reqs (track_op cfg m (Cancel r) ob)) r' = nth_error (m_reqs m) r'.
 Proof.
-  intros Hne. cbn [track_op]. destruct (nth_error (m_reqs m) r) as [x|]; [|reflexivity].
-  destruct (ri_stat x); try reflexivity; unfold ri_upd; cbn [m_reqs set_m_reqs]; apply nth_upd_ne; congruence.
+  intros Hne. destruct (nth_error (m_reqs m) r) as [x|] eqn:Hx; [|rewrite track_cancel_none by exact Hx; reflexivity].
+  rewrite (track_cancel_some _ _ _ _ Hx).
+  destruct (ri_stat x); try reflexivity; unfold ri_upd; cbn [m_reqs set_m_reqs]; rewrite cpre_reqs; apply nth_upd_ne; congruence.
 Qed.
 
 Lemma cancel_self_dead m r ob y y' :
   nth_error (m_reqs m) r = Some y -> is_live y = true -> nth_error (m_reqs (track_op cfg m (Cancel r) ob)) r = Some y' -> is_live y' = false.
 Proof.
-  intros Hy Hl. cbn [track_op]. rewrite Hy. unfold is_live in Hl. destruct (ri_stat y) eqn:Es; try discriminate.
-  unfold ri_upd. cbn [m_reqs set_m_reqs]. rewrite nth_upd_eq, Hy. cbn. intros E. inversion E. reflexivity.
+  intros Hy Hl. rewrite (track_cancel_some _ _ _ _ Hy). unfold is_live in Hl. destruct (ri_stat y) eqn:Es; try discriminate.
+  unfold ri_upd. cbn [m_reqs set_m_reqs]. rewrite cpre_reqs, nth_upd_eq, Hy. cbn. intros E. inversion E. reflexivity.
 Qed.
 
 Lemma K2_do_cancel m r ob s :
